@@ -14,6 +14,7 @@ mod alloc;
 mod conn;
 mod gen;
 mod pkt;
+mod pool;
 mod props;
 mod rng;
 mod runner;
@@ -40,7 +41,12 @@ macro_rules! for_props {
             $m!(props::c20::C20);
         }
         #[cfg(huginn_net_verif_sched)]
-        {}
+        {
+            $m!(props::c10::C10);
+            $m!(props::c10::C08Pool);
+            $m!(props::c10::C01Pool);
+            $m!(props::c18::C18);
+        }
     };
 }
 
